@@ -1,5 +1,6 @@
 """C06 - typed option values: width table, reject-longer guard, lossless
 narrowing, panic-free conversions, encoder shape for 0 and < 256."""
+import os
 from harness import *
 from absdom import Aff
 
@@ -141,8 +142,15 @@ def check(env, rep, tier):
                 elems.reverse()          # push order
                 if rev:
                     elems.reverse()
+                if not elems and isinstance(t, tuple) and t and t[0] in ("slice", "copy") and len(t) >= 4:
+                    # the vector is a copy of a piece of a tracked array (e.g. of value.to_be_bytes())
+                    import summaries2
+                    off = t[2] if isinstance(t[2], int) else (t[2].c if isinstance(t[2], Aff) and t[2].is_const() else None)
+                    got = summaries2.array_elems(I, s_, t[1], off, n) if off is not None else None
+                    if got is not None:
+                        elems, t = got, ("new", 0)
                 if len(elems) != n or not (isinstance(t, tuple) and t and t[0] == "new"):
-                    bad.append("the bytes of a %d-byte encoding are not all tracked" % n)
+                    bad.append("the bytes of a %d-byte encoding are not all tracked%s" % (n, (" (tag %r)" % (t,)) if os.environ.get("VERIF_DEBUG_C06") else ""))
                     continue
                 for i, e in enumerate(elems):
                     eb = bitprov.resolve_bits(I, s_, e) if isinstance(e, IntV) else None
@@ -150,6 +158,8 @@ def check(env, rep, tier):
                     if eb is None or bitprov.field_of(eb, vsym) != want or any(b != 0 and not (isinstance(b, tuple) and b[1] == vsym) for b in eb):
                         bad.append("byte %d of a %d-byte encoding is not bits %d..%d of the value (byte order / shift)" % (i, n, 8 * (n - 1 - i), 8 * (n - 1 - i) + 7))
                         break
+                if os.environ.get("VERIF_DEBUG_C06"):
+                    print("C06.8 n=%d" % n, "range", s_.range(inner.aff), "facts", list(s_.facts)[:12], "elems", elems, [s_.range(e.aff) for e in elems if isinstance(e, IntV)])
                 if n * 8 < bits and not s_.entails(Aff.const((1 << (8 * n)) - 1) - inner.aff):
                     bad.append("a %d-byte encoding is produced for a value not shown below 256^%d (high bytes dropped)" % (n, n))
                 if not s_.entails(inner.aff - (1 << (8 * (n - 1)))):
